@@ -39,6 +39,11 @@ pub enum Vanish {
     RemoveOwn,
     /// RemoveFabric issued by the administrator of the other fabric.
     RemoveByOther,
+    /// A second fabric (B) is staged up to AddNOC through a window that the administrator of
+    /// the existing fabric A opened; A's administrator then rolls it back over ITS OWN CASE
+    /// session (ArmFailSafe(0), or RevokeCommissioning if `true`). B's sessions must go, A's
+    /// session - the very one the command arrived on - must keep working.
+    StagedSecondRolledBackByAdmin(bool),
 }
 
 #[derive(Clone, Debug)]
@@ -86,6 +91,40 @@ pub fn build(sc: &Scenario) -> Built {
     let mut stale_probes = Vec::new();
     let mut stale_cases = Vec::new();
     let mut controls = Vec::new();
+    if let Vanish::StagedSecondRolledBackByAdmin(revoke) = sc.vanish {
+        commission(&mut steps, false, 60, true);
+        steps.push(Step::Probe { ctx: SCtx::CaseA });
+        steps.push(Step::OpenWindow { ctx: SCtx::CaseA });
+        commission(&mut steps, true, 60, false);
+        steps.push(Step::Probe { ctx: SCtx::CaseB });
+        steps.push(Step::Save { fab_b: true, slot: 0 });
+        if sc.flush_before {
+            steps.push(Step::Sleep { ms: 1200 });
+        }
+        let vanish_at = steps.len();
+        if revoke {
+            steps.push(Step::Revoke { ctx: SCtx::CaseA });
+        } else {
+            steps.push(Step::Arm { ctx: SCtx::CaseA, secs: 0 });
+        }
+        steps.push(Step::Sleep { ms: 300 });
+        // the administrator's own session (the one the command arrived on) still works
+        controls.push(steps.len());
+        steps.push(Step::Probe { ctx: SCtx::CaseA });
+        // the staged fabric's session is gone
+        stale_probes.push(steps.len());
+        steps.push(Step::Probe { ctx: SCtx::Saved(0) });
+        steps.push(Step::CtlForgetSessions);
+        stale_cases.push(steps.len());
+        steps.push(Step::Case { fab_b: true });
+        steps.push(Step::Probe { ctx: SCtx::CaseB });
+        // and a fresh session of A works, too
+        steps.push(Step::Case { fab_b: false });
+        controls.push(steps.len());
+        steps.push(Step::Probe { ctx: SCtx::CaseA });
+        steps.push(Step::Sleep { ms: 1500 });
+        return Built { steps, vanish_at, stale_probes, stale_cases, controls, victim_is_a: false };
+    }
     let rollback = matches!(sc.vanish, Vanish::Expiry | Vanish::ForceExpire | Vanish::Restart);
     let secs: u16 = 10;
 
@@ -118,6 +157,7 @@ pub fn build(sc: &Scenario) -> Built {
         Vanish::Restart => steps.push(Step::Restart),
         Vanish::RemoveOwn => steps.push(Step::RemoveFabric { ctx: SCtx::CaseA, idx: 1 }),
         Vanish::RemoveByOther => steps.push(Step::RemoveFabric { ctx: SCtx::CaseB, idx: 1 }),
+        Vanish::StagedSecondRolledBackByAdmin(_) => unreachable!("handled above"),
     }
     steps.push(Step::Sleep { ms: 300 });
 
@@ -182,6 +222,8 @@ pub fn gen_scenario(rng: &mut Rng) -> Scenario {
             Vanish::Restart,
             Vanish::RemoveOwn,
             Vanish::RemoveByOther,
+            Vanish::StagedSecondRolledBackByAdmin(false),
+            Vanish::StagedSecondRolledBackByAdmin(true),
         ]),
         recommission: rng.chance(2, 3),
         flush_before: rng.bool(),
@@ -240,7 +282,7 @@ pub fn judge(rep: &mut Report, sc: &Scenario, b: &Built, r: &WorldResult, replay
         return;
     }
     let before = &r.log[b.vanish_at - 1].dev;
-    let Some(victim) = ident_of(before, 1) else {
+    let Some(victim) = ident_of(before, if b.victim_is_a { 1 } else { 2 }) else {
         rep.inconclusive("victim-fabric-not-at-index-1");
         return;
     };
